@@ -337,4 +337,86 @@ def zeroSub (xs : List Sym) : Sub := xs.map (fun x => (x, Expr.lit 0))
 def predExpr (ss : List St) (dv : Sym) (zero : List Sym) : Option Expr :=
   (obsExpr ss dv).map (substE (zeroSub zero))
 
+/-! ### numeric evaluators (modeling/evaluation.py): the `parameters` mapping
+
+  `ParameterMap = Mapping[Union[str, sympy.Symbol], float]`: a key is a parameter NAME given as a
+  string, as a sympy symbol or as a pharmpy `Expr` symbol.  `expr.subs(mapping)` sympifies every key
+  to the symbol of its name; when two entries denote the same symbol the first inserted one wins.
+  The evaluators are `eval` of the extracted expression under the environment the mapping denotes. -/
+
+inductive Key where
+  | str    : Sym → Key
+  | symbol : Sym → Key
+  | expr   : Sym → Key
+  deriving DecidableEq, Repr, Inhabited
+
+def Key.name : Key → Sym
+  | .str n => n
+  | .symbol n => n
+  | .expr n => n
+
+def Key.isStr : Key → Bool
+  | .str _ => true
+  | _ => false
+
+/-- A Python mapping in insertion order (keys pairwise different as Python objects). -/
+abbrev PMap := List (Key × Expr)
+
+namespace PMap
+
+/-- The value a mapping gives to a parameter NAME: first entry whose key denotes that name. -/
+def value : PMap → Sym → Option Expr
+  | [], _ => none
+  | (k, v) :: m, n => if n = k.name then some v else value m n
+
+/-- `mapping[key]` by Python key equality (a `str` never equals a symbol). -/
+def atKey : PMap → Key → Option Expr
+  | [], _ => none
+  | (k, v) :: m, q => if q = k then some v else atKey m q
+
+/-- What `Expr.subs(mapping)` substitutes. -/
+def toSub (m : PMap) : Sub := m.map (fun p => (p.1.name, p.2))
+
+end PMap
+
+/-- `model.parameters.inits`: keyed by name strings. -/
+def initsMap (inits : List (Sym × Expr)) : PMap := inits.map (fun p => (Key.str p.1, p.2))
+
+/-- `mapping = model.parameters.inits if parameters is None else parameters`
+    (evaluate_population_prediction, evaluate_individual_prediction, both gradient evaluators,
+    evaluate_weighted_residuals). -/
+def directMapping (inits : List (Sym × Expr)) : Option PMap → PMap
+  | none => initsMap inits
+  | some m => m
+
+/-- Python `{**base, **given}`: entries of `base` keep their position and take the value `given` has
+    at the *same key*; entries of `given` whose key is not a key of `base` follow. -/
+def pyMerge (base given : PMap) : PMap :=
+  base.map (fun q => (q.1, (given.atKey q.1).getD q.2)) ++
+    given.filter (fun p => !(base.any (fun q => q.1 == p.1)))
+
+/-- `mapping = inits if parameter_estimates is None else {**inits, **parameter_estimates}`
+    (evaluate_expression). -/
+def mergedMapping (inits : List (Sym × Expr)) : Option PMap → PMap
+  | none => initsMap inits
+  | some m => pyMerge (initsMap inits) m
+
+/-- `expr.subs(mapping)`. -/
+def evalWith (m : PMap) (e : Expr) : Expr := substE m.toSub e
+
+/-- evaluate_population_prediction / evaluate_individual_prediction as expressions over the data
+    columns (and etas): prediction extractor, then the parameter mapping. -/
+def evaluatePred (ss : List St) (dv : Sym) (zero : List Sym) (m : PMap) : Option Expr :=
+  (predExpr ss dv zero).map (evalWith m)
+
+/-- evaluate_expression: `statements.full_expression(expression)` (C10), then the mapping. -/
+def evaluateExpression (ss : List St) (e : Expr) (m : PMap) : Option Expr :=
+  (expandBack ss e).map (evalWith m)
+
+/-- The environment a mapping denotes over `ρ`: parameters named by the mapping take its values. -/
+def overlay {α : Type} (I : Interp α) (ρ : Env α) (m : PMap) : Env α :=
+  fun y => match m.value y with
+    | some v => v.eval I ρ
+    | none => ρ y
+
 end Pharmpy.C07
